@@ -176,6 +176,13 @@ func (m *Manager) getPrimaryStatus(status map[string]interface{}) map[string]int
 
 	status["listen_address"] = m.config.ListenAddr
 
+	// Read the log's sequence before taking the primary's lock (lock order:
+	// never take the log's mutex while holding primary.mu)
+	currentWalSeq := uint64(0)
+	if m.primary.wal != nil {
+		currentWalSeq = m.primary.wal.GetNextSequence() - 1 // Last used sequence
+	}
+
 	// Get detailed primary status
 	m.primary.mu.RLock()
 	defer m.primary.mu.RUnlock()
@@ -210,12 +217,6 @@ func (m *Manager) getPrimaryStatus(status map[string]interface{}) map[string]int
 		}
 
 		replicas = append(replicas, replicaInfo)
-	}
-
-	// Get WAL sequence information
-	currentWalSeq := uint64(0)
-	if m.primary.wal != nil {
-		currentWalSeq = m.primary.wal.GetNextSequence() - 1 // Last used sequence
 	}
 
 	// Add primary-specific information to status
